@@ -17,7 +17,12 @@ Deductive part:
   core.least_squares  (free quaternion *-algebra, component quadruples as handles; all N, all cycle lengths, Arnoldi loop replaced by an
                       arbitrary V, H, v; Hess_QR_ggivens / UtriangleQsparse by their C16 contracts) the y used in a cycle satisfies the
                       normal equations H^H (Vm^H r0 - H y) = 0 and no other z has a smaller ||Vm^H r0 - H z|| (difference = ||H(y - z)||^2);
-Orthonormality of the basis (which turns the small problem's minimality into minimality over the Krylov space), monotone history, convergence within n cycles, independence of
+  core.arnoldi_orthonormal  (free algebra, basis array as a family of column atoms; all N, all cycle lengths, every column) modified Gram-Schmidt:
+                      every column written has unit norm and is orthogonal to every earlier column, also the last vector that stays in v_0..v_3
+                      (inner invariant: the work vector is orthogonal to the columns 0 .. i-1); exact arithmetic, the breakdown exit excluded,
+                      restart residual assumed non-zero.  With core.least_squares and core.arnoldi: the iterate of a cycle minimises
+                      ||b - A x|| over x0 + span(V) in exact arithmetic.
+Rounding (loss of orthogonality in floating point), monotone history, convergence within n cycles, independence of
 scaling and of preconditioning are decided by the bounded stand-in on the real code (n <= 6 (8); 9 matrix classes x
 right-hand sides incl. eigenvectors and 0 x tolerances x caps 0..n x {none, left_lu} x dense/sparse x scalings 1e-6..1e6)."""
 from __future__ import annotations
@@ -138,6 +143,7 @@ def deductive(rep: Report, tier):
     solve_left_lu(rep)
     core_bookkeeping(rep)
     least_squares_glue(rep)
+    arnoldi_orthonormality(rep)
     arnoldi_relation(rep)
     # canary: a residual formed against a different right-hand side is not accepted
     a, b, c = z3.Reals("a b c")
@@ -736,6 +742,372 @@ def least_squares_glue(rep: Report):
         return [("a_cycle_reaches_the_triangular_solve", ctx.ghost.get("ls_checked", 0) >= 1)] + list(ctx.ghost.get("ls_results", []))
     run_case(rep, P, QN, "least_squares", setup, post, lib=lib, contracts=contracts, loop_rules={(QN, 0): Cycle(), (QN, 1): Arnoldi()},
              clauses=["a_cycle_reaches_the_triangular_solve", "normal_equations_HH_times_bm_minus_Hy_is_zero", "no_other_z_gives_a_smaller_residual"], replay=replay_solve, timeout_s=30, max_paths=400, loop_end=True)
+
+
+# ----------------------------------------------------------------------------------------------------
+# modified Gram-Schmidt: the Arnoldi basis is orthonormal (exact arithmetic), all N, all cycle lengths, every column
+def arnoldi_orthonormality(rep: Report):
+    """The Arnoldi loop of _GMRESQsparse in the free quaternion *-algebra, component quadruples as handles.  The basis array is a family of column
+    atoms v[t] (column t is written exactly once: t = 0 before the loop, t = j + 1 in pass j); what is known about them are the facts proved
+    when they are written.  Invariants:
+        pass j (outer):   columns 0..j are orthonormal:  v[a]^H v[b] = delta_ab  for a, b <= j
+        step i (inner):   the work vector w satisfies  v[l]^H w = 0  for every l < i        (w_0 = A v[j],  w_{i+1} = w_i - v[i] (v[i]^H w_i))
+    and at each write of a column (and for the last vector, which stays in v_0..v_3) the obligations
+        unit norm:  ||w / ||w|| ||_F = 1      orthogonal to every earlier column:  v[l]^H (w / ||w||) = 0  for a generic l <= j.
+    Universally quantified facts are instantiated by hand at the indices a step touches (the generic l, the current i); the breakdown exit
+    (||w|| negligible: the vector is not normalised) is outside the claim.  With core.least_squares this gives: in exact arithmetic the iterate of a
+    cycle minimises the residual over x0 + span(V)."""
+    from ..interp import LoopRule
+    from ..nc import Atom
+    from ..sym import PathAbort
+    from ..term import NPFloat
+    from ..values import fresh_hmat
+    UQ = "quatica/utils.py::"
+    QN = G + "_GMRESQsparse"
+    zi = SInt.lift
+
+    class QComp:
+        qv_value = True
+
+        def __init__(self, mat, c, tr=False, sgn=1):
+            self.mat, self.c, self.tr, self.sgn = mat, c, tr, sgn
+            r, k = mat.shape
+            self.shape = (k, r) if tr else (r, k)
+
+        def has_attr(self, name):
+            return name in ("shape", "T", "flatten", "copy")
+
+        @property
+        def T(self):
+            return QComp(self.mat, self.c, not self.tr, self.sgn)
+
+        def __neg__(self):
+            return QComp(self.mat, self.c, self.tr, -self.sgn)
+
+        def flatten(self):
+            return self
+
+        def copy(self):
+            return QComp(self.mat, self.c, self.tr, self.sgn)
+
+        def getitem(self, idx):
+            if idx == (0, 0) and cur().valid(sand(SBool.mk(zi(self.shape[0]) == 1), SBool.mk(zi(self.shape[1]) == 1))) is True:
+                return self
+            raise OutOfReach("index into a component handle")
+
+        def _bin(self, o, sign):
+            if isinstance(o, Zero):
+                return self
+            if not (isinstance(o, QComp) and o.c == self.c and not self.tr and not o.tr and self.sgn == 1 and o.sgn == 1):
+                raise OutOfReach("sum of unrelated component handles")
+            return QComp(HMat(self.mat.p + o.mat.p if sign > 0 else self.mat.p - o.mat.p), self.c)
+
+        def __add__(self, o):
+            return self._bin(o, 1)
+
+        def __sub__(self, o):
+            return self._bin(o, -1)
+
+        def __truediv__(self, s):
+            if self.tr or self.sgn != 1:
+                raise OutOfReach("scaling of a transposed handle")
+            if getattr(s, "np_float64", False):
+                return QComp(HMat(self.mat.p.scale(SReal.mk(1 / SReal.lift(s)))), self.c)
+            return QComp(HMat(self.mat.p / s), self.c)
+
+    class Zero:
+        qv_value = True
+
+        def __init__(self, shape):
+            self.shape = tuple(shape)
+
+        def has_attr(self, name):
+            return name in ("shape", "copy", "flatten")
+
+        def copy(self):
+            return Zero(self.shape)
+
+        def flatten(self):
+            return self
+
+    def colname(t):
+        return f"v[{z3.simplify(zi(t)) if not isinstance(t, int) else t}]"
+
+    def col(t, N):
+        nm = colname(t)
+        if nm not in ncm.ATOMS:
+            Atom(nm, N, 1, "gen", alg="H")
+        return HMat(NC.atom(ncm.ATOMS[nm]))
+
+    def orth_fact(a, b):
+        """instantiate the outer invariant (columns 0 .. j_cur orthonormal) at the pair (a, b)"""
+        c = cur()
+        g = c.ghost
+        jc = g["j_cur"]
+        if c.valid(sand(SBool.mk(zi(a) >= 0), SBool.mk(zi(a) <= zi(jc)), SBool.mk(zi(b) >= 0), SBool.mk(zi(b) <= zi(jc)))) is not True:
+            return
+        na, nb = colname(a), colname(b)
+        if c.valid(SBool.mk(zi(a) == zi(b))) is True:
+            ncm.add_rewrite(((na, True), (nb, False)), ())
+        elif c.valid(SBool.mk(zi(a) != zi(b))) is True:
+            g["zero_words"] = tuple(g.get("zero_words", ())) + (((na, True), (nb, False)), ((nb, True), (na, False)))
+
+    class VArr:
+        """component c of the basis array: column t is the atom v[t]"""
+        qv_value = True
+
+        def __init__(self, c, N, m):
+            self.c, self.shape = c, (N, m)
+
+        def has_attr(self, name):
+            return name in ("shape", "T")
+
+        @property
+        def T(self):
+            raise PathAbort("after the Arnoldi loop (left through the breakdown exit with a square basis): the least-squares step is core.least_squares")
+
+        def getitem(self, idx):
+            c = cur()
+            if isinstance(idx, tuple) and len(idx) == 2 and idx[0] == slice(None) and isinstance(idx[1], slice) and idx[1].step is None:
+                a, b = idx[1].start, idx[1].stop
+                if a is None:                       # V[:, :m] on breakdown
+                    return VArr(self.c, self.shape[0], b)
+                if c.valid(SBool.mk(zi(b) == zi(a) + 1)) is True:
+                    c.require("index.range", sand(SBool.mk(zi(a) >= 0), SBool.mk(zi(a) < zi(self.shape[1]))), f"column {zi(a)} inside the basis array")
+                    return QComp(col(a, self.shape[0]), self.c)
+            raise OutOfReach("index pattern on the basis array")
+
+        def setitem(self, idx, val):
+            c = cur()
+            if not (isinstance(idx, tuple) and len(idx) == 2 and idx[0] == slice(None) and not isinstance(idx[1], slice) and isinstance(val, QComp) and val.c == self.c and not val.tr):
+                raise OutOfReach("write pattern on the basis array")
+            t = idx[1]
+            c.require("index.range", sand(SBool.mk(zi(t) >= 0), SBool.mk(zi(t) < zi(self.shape[1]))), f"column {zi(t)} inside the basis array")
+            pend = c.ghost.setdefault("col_writes", {})
+            key = colname(t)
+            ent = pend.setdefault(key, {"t": t, "vals": {}})
+            ent["vals"][self.c] = val.mat
+            if len(ent["vals"]) == 4:
+                mats = [ent["vals"][k] for k in range(4)]
+                same = all(ncm.nc_syntactically_equal(m_.p, mats[0].p) for m_ in mats[1:])
+                new_column(t, mats[0] if same else None, self.shape[0])
+                del pend[key]
+
+    def new_column(t, E, N):
+        """column t := E.  Obligations on E, then E is known as the atom v[t]."""
+        c = cur()
+        g = c.ghost
+        rec = g.setdefault("emit", [])
+        tag = "first_column" if (isinstance(t, int) and t == 0) else "new_column"
+        if E is None:
+            rec.append((f"{tag}.same_vector_in_all_four_components", smt.REFUTED, "syntactic", 0.0, None))
+            return
+        v = smt.prove(c.hyps(), SReal.lift(ncm.fro2(E.p)) == 1, 20)
+        rec.append((f"{tag}.unit_norm", v.status, "normal-form+" + v.backend, v.secs, None if v.status == smt.PROVED else {"model": v.model}))
+        if tag == "new_column":
+            check_orthogonal_to_earlier(E, t, tag)
+        col(t, N)
+
+    def check_orthogonal_to_earlier(E, t, tag):
+        """v[l]^H E = 0 for a generic earlier column l < t: the work vector is W (inner invariant: orthogonal to every column l <= j), E = W / ||W||"""
+        c = cur()
+        g = c.ghost
+        rec = g.setdefault("emit", [])
+        l = SInt.var(c.fresh_name("l_earlier"))
+        c.assume(sand(l >= 0, l < t))
+        N = E.shape[0]
+        w = g.get("w_inv")
+        if w is not None:
+            Wname, bound = w
+            if c.valid(SBool.mk(zi(l) < zi(bound))) is True:          # instance of the inner invariant at l
+                g["zero_words"] = tuple(g.get("zero_words", ())) + (((colname(l), True), (Wname, False)), ((Wname, True), (colname(l), False)))
+        vl = col(l, N)
+        prod = vl.p.star @ E.p
+        st, be, secs, wit = ncm.nc_equal_obligation(prod, NC.zero(1, 1), c.hyps())
+        rec.append((f"{tag}.orthogonal_to_every_earlier_column", st, be, secs, wit or None))
+
+    def quad(q):
+        if all(isinstance(x, Zero) for x in q):
+            return NC.zero(q[0].shape[0], q[0].shape[1])
+        if not all(isinstance(x, QComp) and x.c == i for i, x in enumerate(q)):
+            raise OutOfReach("quadruple of unrelated component handles")
+        m0 = q[0].mat.p
+        if not all(ncm.nc_syntactically_equal(x.mat.p, m0) for x in q[1:]):
+            raise OutOfReach("components of different matrices in one quadruple")
+        if all(not x.tr and x.sgn == 1 for x in q):
+            return m0
+        if all(x.tr for x in q) and q[0].sgn == 1 and all(x.sgn == -1 for x in q[1:]):
+            return m0.star
+        if len({x.tr for x in q}) == 1:
+            r, k = q[0].shape           # another sign pattern (e.g. the plain transpose): some matrix of that shape about which nothing is known
+            return fresh_hmat(cur().fresh_name("signed_variant"), r, k).p
+        raise OutOfReach("component quadruple with mixed transposition")
+
+    def comps(p):
+        Hm = HMat(p)
+        return tuple(QComp(Hm, i) for i in range(4))
+
+    def k_times(I, args, kwargs):
+        B, C = quad(args[0:4]), quad(args[4:8])
+        ncm.dims_equal(B.cols, C.rows, "conformable.timesQsparse")
+        return comps(B @ C)
+
+    def k_norm(I, args, kwargs):
+        return NPFloat(ssqrt(ncm.fro2(quad(args[0:4]))).z)
+
+    class HArr:
+        """component c of the Hessenberg array: only the entry written last is read back"""
+        qv_value = True
+
+        def __init__(self, c, shape):
+            self.c, self.shape, self.last = c, tuple(shape), None
+
+        def has_attr(self, name):
+            return name == "shape"
+
+        def setitem(self, idx, val):
+            self.last = (str(tuple(str(zi(x)) if not isinstance(x, int) else x for x in idx)), val)
+
+        def getitem(self, idx):
+            if isinstance(idx, tuple) and len(idx) == 2 and any(isinstance(x, slice) for x in idx):
+                return self
+            key = str(tuple(str(zi(x)) if not isinstance(x, int) else x for x in idx))
+            if self.last is not None and self.last[0] == key:
+                return self.last[1]
+            raise OutOfReach("read of a Hessenberg entry other than the one written last")
+
+    def alloc(what, shape, dtype):
+        c = cur()
+        shp = shape if isinstance(shape, tuple) else (shape,)
+        if what not in ("zeros", "empty") or len(shp) != 2:
+            return None
+        k = c.ghost.get("alloc_count", 0)
+        c.ghost["alloc_count"] = k + 1
+        role = c.ghost.get("alloc_roles", {}).get(k)
+        if role and role[0] == "V":
+            return VArr(role[1], shp[0], shp[1])
+        if role and role[0] == "H":
+            return HArr(role[1], shp)
+        return Zero(shp)
+
+    class Inner(LoopRule):
+        """for i in range(j + 1):  the work vector is orthogonal to the columns 0 .. i-1"""
+        modifies = ("v_0", "v_1", "v_2", "v_3", "H0", "H1", "H2", "H3")      # (the Hessenberg arrays keep only the entry written last)
+
+        def establish(self, it, fr, start):
+            pass                                        # i = 0: nothing to show
+
+        def havoc(self, it, fr, k):
+            c = cur()
+            N = fr.vars["N"]
+            W = fresh_hmat(c.fresh_name("W"), N, 1)
+            (word, _), = W.p.t.items()
+            c.ghost["w_inv"] = (word[0][0], k)
+            for i in range(4):
+                fr.vars[f"v_{i}"] = QComp(W, i)
+            if c.ghost.get("_havoc_kind") == "generic":
+                # the step uses column i = k and the generic earlier column: instantiate the orthonormality of the columns 0 .. j at those pairs
+                orth_fact(k, k)
+
+        def preserve(self, it, fr, k):
+            c = cur()
+            g = c.ghost
+            rec = g.setdefault("emit", [])
+            vq = [fr.vars.get(f"v_{i}") for i in range(4)]
+            if not all(isinstance(x, QComp) and x.c == i and not x.tr for i, x in enumerate(vq)) or not all(ncm.nc_syntactically_equal(x.mat.p, vq[0].mat.p) for x in vq[1:]):
+                rec.append(("inner.preserve.work_vector_is_one_quaternion_vector", smt.REFUTED, "syntactic", 0.0, None))
+                return
+            Wn = vq[0].mat
+            N = Wn.shape[0]
+            Wname, _ = g["w_inv"]
+            l = SInt.var(c.fresh_name("l_inner"))
+            c.assume(sand(l >= 0, l < k + 1))
+            if c.decide(SBool.mk(zi(l) == zi(k))):
+                vl = col(k, N)                                           # l = i: v[i]^H (w - v[i] (v[i]^H w)) = 0 because v[i]^H v[i] = 1
+            else:
+                orth_fact(l, k)                                          # l < i: v[l]^H v[i] = 0 and (inner invariant at l) v[l]^H w = 0
+                g["zero_words"] = tuple(g.get("zero_words", ())) + (((colname(l), True), (Wname, False)), ((Wname, True), (colname(l), False)))
+                vl = col(l, N)
+            # the new work vector was formed before these facts were registered: rebuild its normal form under them by re-multiplying
+            prod = vl.p.star @ (Wn.p @ NC.eye(1))
+            st, be, secs, wit = ncm.nc_equal_obligation(prod, NC.zero(1, 1), c.hyps())
+            rec.append(("inner.preserve.work_vector_orthogonal_to_columns_up_to_i", st, be, secs, wit or None))
+
+    class Outer(LoopRule):
+        """for j in range(m): columns 0 .. j are orthonormal (the facts are attached to the column atoms when the columns are written)"""
+        modifies = ("v_0", "v_1", "v_2", "v_3", "breakdown", "H0", "H1", "H2", "H3", "m", "V0", "V1", "V2", "V3")
+        # (m and the truncation of V change only on the breakdown exit; the basis array object itself is a stateless view on the column atoms)
+
+        def establish(self, it, fr, start):
+            cur().ghost["j_cur"] = start
+
+        def havoc(self, it, fr, k):
+            c = cur()
+            if c.ghost.get("_havoc_kind") == "exhausted":
+                raise PathAbort("after the Arnoldi loop: the least-squares step is core.least_squares")
+            c.ghost["j_cur"] = k
+            for i in range(4):
+                fr.vars[f"v_{i}"] = Opaque(f"v_{i}")
+                fr.vars[f"H{i}"] = HArr(i, (fr.vars["m"] + 1, fr.vars["m"]))
+            fr.vars["breakdown"] = False
+
+        def preserve(self, it, fr, k):
+            c = cur()
+            g = c.ghost
+            # pass j = m - 1: the new vector is not stored in the array but stays in v_0..v_3 (it becomes the last column of Vm)
+            if c.valid(SBool.mk(zi(k) == zi(fr.vars["m"]) - 1)) is True and fr.vars.get("breakdown") is False:
+                vq = [fr.vars.get(f"v_{i}") for i in range(4)]
+                if all(isinstance(x, QComp) for x in vq) and all(ncm.nc_syntactically_equal(x.mat.p, vq[0].mat.p) for x in vq[1:]):
+                    E = vq[0].mat
+                    v = smt.prove(c.hyps(), SReal.lift(ncm.fro2(E.p)) == 1, 20)
+                    g.setdefault("emit", []).append(("last_vector.unit_norm", v.status, "normal-form+" + v.backend, v.secs, None if v.status == smt.PROVED else {"model": v.model}))
+                    check_orthogonal_to_earlier(E, k + 1, "last_vector")
+
+    class Cycle(LoopRule):
+        modifies = ("x0_0", "x0_1", "x0_2", "x0_3", "xm_0", "xm_1", "xm_2", "xm_3", "res", "resv", "iter")
+
+        def havoc(self, it, fr, k):
+            c = cur()
+            X0 = fresh_hmat(c.fresh_name("x0"), fr.vars["N"], 1)
+            for i in range(4):
+                fr.vars[f"x0_{i}"] = QComp(X0, i)
+                fr.vars[f"xm_{i}"] = QComp(X0, i)
+            fr.vars["res"] = SReal.var(c.fresh_name("res"))
+            fr.vars["iter"] = SInt.var(c.fresh_name("iter"))
+            L = SInt.var(c.fresh_name("len"))
+            c.assume(L >= 0)
+            fr.vars["resv"] = SymList(L, "resv")
+            # a cycle starts from an iterate that is not an exact solution: r0 = b - A x0 != 0.  (First cycle: x0 = 0 and b != 0 was tested; later cycles:
+            # the previous cycle ended with res >= tol, so r0 != 0 whenever tol > 0.  With tol = 0 and an exact iterate the code divides by beta = 0 - nan
+            # propagation is outside the model, assumption A1.)
+            Amat, bmat = fr.vars["A0"].mat, fr.vars["b_0"].mat
+            c.assume(SReal.lift(ncm.fro2(bmat.p - Amat.p @ X0.p)) > 0)
+            # the allocations of one cycle, in program order: V0..V3 (N x m), H0..H3 (m+1 x m); the x0 work arrays before the loop are Zero
+            c.ghost["alloc_roles"] = {c.ghost.get("alloc_count", 0) + i: ("V", i) for i in range(4)}
+            c.ghost["alloc_roles"].update({c.ghost.get("alloc_count", 0) + 4 + i: ("H", i) for i in range(4)})
+
+    def after_the_loop(*a, **k):
+        raise PathAbort("after the Arnoldi loop (here: left through the breakdown exit): the least-squares step is core.least_squares")
+
+    lib = Library("nc")
+    lib.qmode = "H"
+    lib.alloc_hooks.append(alloc)
+    lib.np.table["column_stack"] = after_the_loop
+    contracts = {UQ + "normQsparse": k_norm, UQ + "timesQsparse": k_times}
+
+    def setup(I, ctx):
+        (n,) = dims(ctx, "n")
+        A, b = fresh_hmat("A", n, n), fresh_hmat("b", n, 1)
+        tol, K = SReal.var("tol"), SInt.var("maxit")
+        slf = mk_self(I, "QGMRESSolver", tol=tol, max_iter=None, verbose=False, preconditioner="none")
+        return [slf] + [QComp(A, i) for i in range(4)] + [QComp(b, i) for i in range(4)] + [tol, K], {}, None
+
+    def post(I, ctx, outcome, val, aux):
+        return list(ctx.ghost.get("emit", []))
+    cl = ["first_column.unit_norm", "new_column.unit_norm", "new_column.orthogonal_to_every_earlier_column", "inner.preserve.work_vector_orthogonal_to_columns_up_to_i",
+          "last_vector.unit_norm", "last_vector.orthogonal_to_every_earlier_column"]
+    run_case(rep, P, QN, "arnoldi_orthonormal", setup, post, lib=lib, contracts=contracts, loop_rules={(QN, 0): Cycle(), (QN, 1): Outer(), (QN, 2): Inner()},
+             clauses=cl, replay=replay_solve, timeout_s=30, max_paths=600, loop_end=True)
 
 
 # ----------------------------------------------------------------------------------------------------
